@@ -172,7 +172,9 @@ def r15_1(ctx, g):
             untraced.append(src[:60])
     # every entry of a side is removed: nothing inside the loop decides to leave one out
     for l in loops:
-        skips = [x for x in ast.walk(l) if isinstance(x, (ast.Continue, ast.Break))]
+        from ..core import own_loop_jumps
+
+        skips = own_loop_jumps(l.body)
         cond = [x for x in l.body if isinstance(x, ast.If) and any(isinstance(c, ast.Call) and isinstance(c.func, ast.Attribute) and c.func.attr == "remove_edge" for c in ast.walk(x))]
         if skips or cond:
             t = norm((cond[0] if cond else next(x for x in l.body if isinstance(x, ast.If))).test)[:60] if (cond or any(isinstance(x, ast.If) for x in l.body)) else "?"
